@@ -4,7 +4,8 @@ import Ptk.Model.C11
 open Ptk Ptk.Py Ptk.Proto Ptk.C11
 
 /-- runtime character classes regenerated from the current tree / interpreter -/
-def genW : Widths := { rw := Gen.C11.rawWidth, disp := Gen.C11.display }
+def genW : Widths := { rw := Gen.C11.rawWidth, disp := Gen.C11.display,
+                        dm := Gen.C11.measuresDisplayWidth, exact := Gen.C11.exactWrappedHeight }
 
 def decChar (tok : String) : Option Char := tok.toNat?.map Char.ofNat
 
